@@ -79,7 +79,8 @@ def events(items, mx):
         elif it == 'tS':
             evs += ['CTcp true SrvStalls', 'CE (EvSubmit CShutdown SFuture)', 'CE EvRecv']
             return evs
-    return evs + ['CE (EvSubmit CShutdown SFuture)', 'CE EvRecv']
+    # a script without tS ends with one: the attempt after the last wait meets a silent peer, then shutdown
+    return evs + ['CTcp true SrvStalls', 'CE (EvSubmit CShutdown SFuture)', 'CE EvRecv']
 
 
 def gen(r, n):
